@@ -65,7 +65,11 @@ for _pid, _what in [
         text="Machine-checked proof (Coq) over the node-level transaction pipeline model: for every valid history the "
              "executable property monitor never objects to the model's notification trace (" + _what + "). The same monitor "
              "runs on the real node's traces in the correspondence check, which also compares every notification with the "
-             "model step by step (real handlers, real ProcessBlock, real checkTxDelays goroutine, restart on the same storage).",
+             "model step by step (real handlers, real ProcessBlock, real checkTxDelays goroutine, restart on the same storage). "
+             "Histories include reorganisations through the real headers handler (orphaned transactions announced again, "
+             "confirmed again on the new branch), tx delivery through extended messages, and restarts that reload the mempool; "
+             "four goroutine interleavings the code must exclude by its locks are replayed on the real node with pause points "
+             "(store, handler callback, output fetcher, block announcement).",
         note=_TXFLOW_NOTE,
         technique="Coq invariant proof over an executable model + model/implementation correspondence + trace monitor",
         ref="5/C03-C06-C07-C11")
@@ -97,9 +101,11 @@ CHECKS["C12"] = dict(
     text="Machine-checked proofs (Coq): non-interference - the trusted steps of any history interleaved with arbitrary "
          "untrusted block/headers/tx/inv messages observe exactly what they observe without them (two-run theorem over "
          "the sync model); an untrusted connection is verified only by linked headers whose first is known within the "
-         "window; unverified tx/inv are dropped; no vouching (safe needs the trusted mark: monitor code 122 of the "
-         "transaction pipeline theorem). Correspondence through the real untrusted handler map sharing the real trusted "
-         "state; the two-run comparison is also executed on the implementation.",
+         "window; unverified tx/inv are dropped; no vouching (safe needs the trusted mark: monitor codes 122 / 126 of the "
+         "transaction pipeline theorem, also across reorganisations: C12_no_vouching_reorg). Correspondence through the real "
+         "untrusted handler map sharing the real trusted state (systematic header-proof shapes), the pipeline suite with "
+         "untrusted re-sends after reorgs, the two-run comparison executed on the implementation, and a lock-order replay "
+         "(an untrusted double spend arriving while a block is inside ProcessBlock must not stall the node).",
     note="Trusted: Coq kernel; models Sync.v / TxFlow.v validated by correspondence; untrusted traffic only enters through "
          "NewUntrustedMessageHandlers.",
     technique="Coq two-run (non-interference) proof + model/implementation correspondence + two-run diff on the implementation",
@@ -159,9 +165,12 @@ CHECKS["C16"] = dict(
          "keys that request is unique (never another call's); a call returns what the answering message means "
          "(value / reject code); a time-out deregisters only its own request; GetOutputs returns per outpoint and in "
          "order that outpoint's value or an error (loop with fill-ahead proved equal to the direct specification); "
-         "the executable monitor never objects to the model's trace on any history (props/C16.v, 5 theorems). "
-         "Correspondence: real runRequests goroutine, real handleMessage and real public calls (all ten kinds) on "
-         "generated interleavings, plus the registration/response select race.",
+         "the executable monitor never objects to the model's trace on any history; and the router is the code's: "
+         "handleRequestResponse is translated from the Go source on every run (translator/router.go -> gen/RouterGen.v) "
+         "and proved to compute the model's routing function for every message and pending list (props/C16.v, 7 theorems). "
+         "Correspondence: real runRequests goroutine, real handleMessage and real public calls (all ten kinds, with a "
+         "snapshot of the registered requests at the moment each call's message is written) on generated interleavings, "
+         "a systematic sweep of the router table, the registration/response select race, and loopback TCP scenarios.",
     note=_CLIENT_NOTE,
     technique="Coq refinement proof (routing = protocol meaning) + model/implementation correspondence + trace monitor",
     ref="5/C16")
@@ -196,9 +205,12 @@ CHECKS["C04"] = dict(
          "size and every set / position of registered transactions (pairwise distinct txids) the streaming root equals "
          "the textbook root, every returned proof carries the transaction's true index and is accepted by the verifier "
          "against that root, proofs come back in registration order (alignment), and a body whose root differs from "
-         "the header's is rejected with chain and notifications untouched (props/C04.v). Correspondence: real "
-         "Node.ProcessBlock on blocks of 1..33 transactions with chosen relevant positions, previously seen or not, "
-         "corrupted bodies; proofs compared structurally and run through the real client verifier.",
+         "the header's is rejected with chain and notifications untouched; over histories with aborts, restarts, "
+         "reorganisations and re-announcements every confirmation is rebuilt from the current block (C04_history_sound); "
+         "at node level the pipeline theorem's code 153 (this block's proof, depth 0) never fires (props/C04.v, 11 theorems). "
+         "Correspondence: real Node.ProcessBlock on blocks of 1..33 transactions with chosen relevant positions, previously "
+         "seen or not, corrupted bodies, abort / restart / reorg histories; proofs compared structurally and run through "
+         "the real client verifier; plus the node-level pipeline suite (conflicts, unsafe states).",
     note="Trusted: Coq kernel; SHA-256d idealised as a free constructor (injective, never a leaf); the dependency's "
          "wire.MerkleTree is modelled and validated by correspondence, not verified; hand-written model validated by "
          "correspondence on a real Node.",
